@@ -13,7 +13,9 @@ CTX_TEXT = ('Code->spec trace validation: every public call of this family is ex
             'axis tables and lattices up to 1000+ concepts, in both states of the lazy-lattice cache, with live sibling '
             'contexts (same labels, other table, incl. CRC32 twins), several argument kinds and under python -O; each '
             'recorded event is validated by TLC against the TLA+ state machine ContextSys/TraceCtx (every clause of '
-            'the property on every event). The oracle is model checked against the literal property statement on all '
+            'the property on every event). Spec->code: TLC\'s simulator chooses sessions of several same-label '
+            'handles on SessionSys.tla (create / query family / failing call / copy / pickle / export-reload / drop in '
+            'any order) that are replayed on real objects and validated the same way. The oracle is model checked against the literal property statement on all '
             'small tables (Theorems.tla, 22 invariants), the handle state machine and implementation-shaped models of '
             'Lindig / FCbO / the heap merge are explored exhaustively (MC_ContextSys, Algorithms.tla), and the Galois / '
             'closure core is proved for all sizes with TLAPS (thorough tier).')
@@ -29,7 +31,7 @@ CLAIMED = {
     'C08': ('TLC trace validation of the full predicate matrices vs extent-level definitions', '6/C08'),
     'C09': ('TLC trace validation vs filters/ideals and rank order', '6/C09'),
     'C10': ('TLC trace validation vs reduced labelling (object/attribute concepts)', '6/C10'),
-    'C11': ('TLC trace validation of the persistence life cycle (lazy-lattice flag as state) vs Documents.tla; loaded objects compared with recomputed ones through full public observations', '6/C11'),
+    'C11': ('TLC trace validation of the persistence life cycle (lazy-lattice flag as state) vs Documents.tla; loaded objects compared with recomputed ones through full public observations; TLC-chosen SessionSys behaviours replayed and validated by TraceSession.tla (lazy flag of every live handle after every step, full observation at drop)', '6/C11'),
     'C12': ('TLC trace validation of round trips and of independently read/written text; TLA+ writers (TextFormats.tla) enumerate laid-out documents that the library must load', '6/C12'),
     'C13': ('TLC trace validation of the complete one-step relation, 2-step paths and random histories vs Definition.tla; DefSys.tla model checked (WF inductive, errors change nothing)', '6/C13'),
     'C14': ('TLC trace validation of all pairs x derivations x follow-up edits with every live handle logged (Frame clause) vs Definition.tla', '6/C14'),
